@@ -205,6 +205,10 @@ func selectParent(nodeSet NodeSet) Result {
 	result := make([]store.Cursor, 0)
 
 	for _, i := range nodeSet {
+		if i.Pos() == 0 {
+			continue
+		}
+
 		result = append(result, i.Parent())
 	}
 
